@@ -110,6 +110,12 @@ impl GK for PDfsGoal {
 #[derive(Clone)]
 pub struct Ctx {
     pub defs: Rc<Vec<Def>>,
+    pub qvars: Rc<Vec<PTerm>>,
+}
+
+thread_local! {
+    /// What `Observe` goals saw, in the order states reached them.
+    pub static OBSERVED: std::cell::RefCell<Vec<(u32, T)>> = std::cell::RefCell::new(Vec::new());
 }
 
 pub fn build_conj<K: GK>(gs: &[G], env: &Env, cx: &Ctx) -> K {
@@ -331,6 +337,16 @@ pub fn build<K: GK>(g: &G, env: &Env, cx: &Ctx) -> K {
                 Stream::unit(Box::new(state))
             }))
         }
+        G::Observe(id) => {
+            let id = *id;
+            let qlist: PTerm = LTerm::from_vec(cx.qvars.iter().cloned().collect());
+            fngoal::<K>(Box::new(move |_solver, state| {
+                let walked = state.smap_ref().walk_star(&qlist);
+                let t = crate::engine::canon_term(&walked);
+                OBSERVED.with(|o| o.borrow_mut().push((id, t)));
+                Stream::unit(Box::new(state))
+            }))
+        }
         G::Probe(_id) => fngoal::<K>(Box::new(move |_solver, mut state| {
             check_user_invariants(&mut state);
             Stream::unit(Box::new(state))
@@ -360,9 +376,6 @@ pub fn check_user_invariants(state: &mut PState) {
 /// The whole query goal, exactly as `proto_vulcan_query!` lays it out.
 pub fn build_query(p: &Program) -> PQuery {
     use proto_vulcan::relation as rel;
-    let cx = Ctx {
-        defs: Rc::new(p.defs.clone()),
-    };
     let mut env: Env = Vec::new();
     let mut qvars: Vec<PTerm> = vec![];
     for i in 0..p.nq {
@@ -370,6 +383,10 @@ pub fn build_query(p: &Program) -> PQuery {
         env_set(&mut env, i, v.clone());
         qvars.push(v);
     }
+    let cx = Ctx {
+        defs: Rc::new(p.defs.clone()),
+        qvars: Rc::new(qvars.clone()),
+    };
     let query_var: PTerm = LTerm::var("__query__");
     let body: Vec<PGoal> = p.body.iter().map(|g| build::<PGoal>(g, &env, &cx)).collect();
     let parts: [PGoal; 3] = [
